@@ -30,7 +30,8 @@ def resource_loop_pred(ctx, fi, seeds):
 
 def r15_checkpoint_rename(ctx, rule='R15'):
     """stream(): close, then rename, only after the resource loop completed, never from except/finally."""
-    fi = stream_func(ctx)
+    fi0 = stream_func(ctx)
+    fi = ctx.N(fi0)          # a finishing helper (`finish()`) is part of the step
     lp = resource_loop_pred(ctx, fi, ['package'])
     preds = {'RENAME': ext(ctx, 'os.rename', 'os.replace', 'shutil.move'),
              'CLOSE': lambda n: isinstance(n, ast.Call) and isinstance(n.func, ast.Attribute) and n.func.attr == 'close'
@@ -42,7 +43,7 @@ def r15_checkpoint_rename(ctx, rule='R15'):
         raise AnalysisError('stream: no rename found (commit point vanished)')
     report_order(ctx, rule, fi, problems, pes, 'close < rename, rename only after the resource loop, not in except/finally',
                  'the checkpoint file can be committed (renamed to its final name) although writing did not complete')
-    return fi
+    return fi0
 
 
 def dumper_base(ctx):
@@ -159,7 +160,9 @@ def rows_processor(ctx):
 def r15_datafile_order(ctx, rule='R15'):
     """FileDumper.rows_processor: finalize_file < tell < hash < close < write_file_to_output < unlink, all after the row loop,
     all on the same temp-file value."""
-    rp = rows_processor(ctx)
+    rp0 = rows_processor(ctx)
+    # helpers of the same class (a finishing step split off into its own method) are inlined; the calls the rule names stay calls
+    rp = ctx.N(rp0, keep=('hash_handler', 'write_file_to_output', 'inc_attr', 'set_attr', 'get_attr', 'finalize_file'))
     from sa.model import row_loops
     rls = row_loops(rp)
     if len(rls) != 1:
@@ -280,3 +283,31 @@ def one_line_per_object(ctx, write_fi):
     if any(k.arg == 'indent' and not (isinstance(k.value, ast.Constant) and k.value.value is None) for k in dumps[0].keywords):
         return False, 'ejson.dumps is called with an indent: a document spans several lines'
     return True, 'file.write(ejson.dumps(obj) + newline)'
+
+
+def checkpoint_chain_cases(ctx):
+    """Paths of checkpoint._preprocess_chain as (polarity of the exists test, its resolved argument, resolved returned value);
+    values are resolved along each path, so locals in between and the order of the branches do not matter."""
+    from sa.model import norm_compare
+    from sa.pathvals import PathValues
+    from sa.paths import RAISE, Enumerator
+    ck = ctx.repo.cls('dataflows.processors.checkpoint:checkpoint')
+    pc0 = ck.methods.get('_preprocess_chain')
+    if pc0 is None:
+        raise AnalysisError('checkpoint._preprocess_chain not found')
+    pc = ctx.N(pc0)
+    out = []
+    for p in Enumerator(where=pc.qualname).paths(pc.node.body):
+        if p.term == RAISE:
+            continue
+        pv = PathValues(p)
+        pol_, arg = None, None
+        for t, pol in pv.guards:
+            t, pol = norm_compare(t, pol)
+            if isinstance(t, ast.Call) and u(t.func) in ('os.path.exists', 'os.path.isfile', 'self.exists'):
+                pol_ = pol
+                arg = t.args[0] if t.args else ast.Name(id='self.filename', ctx=ast.Load()) if u(t.func) == 'self.exists' else None
+        out.append((pol_, arg, pv.returns[0] if pv.returns else None, p))
+    if not out:
+        raise AnalysisError('checkpoint._preprocess_chain: no path found')
+    return pc, out
